@@ -550,13 +550,32 @@ def c18_directives(n: int, d0: int, d1: int, d2: int, d3: int, split: int, reads
 
 def c18_serializer(shape: int, lv: int) -> bool:
   """
-  A configuration serialized into a flag value parses back to an equal configuration.
-  require: 0 <= shape <= 3 and -2 <= lv <= 2
+  A configuration serialized into a flag value parses back to an equal configuration (shapes 4-7: the flag itself,
+  holding a base config plus later directives, is serialized with Flag.serialize() and parsed back by a second flag).
+  require: 0 <= shape <= 7 and -2 <= lv <= 2
   """
   import crosshair
-  shape, lv = _conc(shape, 0, 3), _conc(lv, -2, 2)
+  shape, lv = _conc(shape, 0, 7), _conc(lv, -2, 2)
   with crosshair.NoTracing():
     from absl import flags as absl_flags
+    if shape >= 4:
+      blob = fdl_flags.FiddleFlagSerializer().serialize(base2(7))
+      directives = [[blob], [blob, f'set:x={lv + 10}'], ['config:base2(2)', 'set:y.x=3', 'fiddler:f1'],
+                    [blob, 'fiddler:f2(k=5)', f'set:x={lv}']][shape - 4]
+      mk = lambda: fdl_flags.FiddleFlag(name='cfg', default=None, parser=absl_flags.ArgumentParser(),
+                                        serializer=fdl_flags.FiddleFlagSerializer(), help_string='h',
+                                        default_module=sys.modules[__name__])
+      flag = mk()
+      flag.parse(directives)
+      value = flag.value
+      text = flag.serialize()
+      note('c18s', shape, lv)
+      if not text.startswith('--cfg='):
+        return False
+      flag2 = mk()
+      flag2.parse([text[len('--cfg='):]])
+      back = flag2.value
+      return canon(back) == canon(value) and back == value and canon(flag.value) == canon(value)
     inner = fdl.Config(fam.fkw, x=lv, y=[lv, 'a=b', "q'"], extra={'': lv})
     shared = [inner, lv]
     cfg = [fdl.Config(fam.g1, x=inner, y=shared, z=shared), fdl.Partial(fam.g1, x=fdl.ArgFactory(fam.g0, x=shared)),
@@ -570,16 +589,18 @@ def c18_serializer(shape: int, lv: int) -> bool:
     return canon(back) == canon(cfg) and back == cfg
 
 
-ARGS = [0, -1, 1.5, 'a', "it's", 'a,b', 'x)', '(', True, None, [1, 'b'], {'k': (1, 2)}, (), b'b', 'a=b', '']
+ARGS = [0, -1, 1.5, 'a', "it's", 'a,b', 'x)', '(', True, None, [1, 'b'], {'k': (1, 2)}, (), b'b', 'a=b', '', '\xe9',
+        '\u65e5\u672c \U0001f600']
+NARGS = len(ARGS)
 
 
 def c18_call_expr(name: int, a0: int, a1: int, k0: int, nargs: int, nkw: int) -> bool:
   """
   CallExpression.parse of a rendered call with literal arguments gives back the name, the arguments and the keywords.
-  require: 0 <= name <= 3 and 0 <= a0 < 16 and 0 <= a1 < 16 and 0 <= k0 < 16 and 0 <= nargs <= 2 and 0 <= nkw <= 1
+  require: 0 <= name <= 3 and 0 <= a0 < 18 and 0 <= a1 < 18 and 0 <= k0 < 18 and 0 <= nargs <= 2 and 0 <= nkw <= 1
   """
   import crosshair
-  name, a0, a1, k0 = _conc(name, 0, 3), _conc(a0, 0, 15), _conc(a1, 0, 15), _conc(k0, 0, 15)
+  name, a0, a1, k0 = _conc(name, 0, 3), _conc(a0, 0, NARGS - 1), _conc(a1, 0, NARGS - 1), _conc(k0, 0, NARGS - 1)
   nargs, nkw = _conc(nargs, 0, 2), _conc(nkw, 0, 1)
   with crosshair.NoTracing():
     fname = ['f', 'mod.fn', 'a.b_c.D2', '_x'][name]
@@ -641,10 +662,10 @@ def obligations(tier, seed):
                  smoke=dict(n=4, d0=0, d1=3, d2=6, d3=3, split=5, reads=2),
                  extra_smokes=[dict(n=3, d0=2, d1=7, d2=5, d3=0, split=0, reads=0), dict(n=2, d0=3, d1=0, d2=0, d3=0, split=0, reads=0),
                                dict(n=4, d0=0, d1=3, d2=4, d3=3, split=0, reads=0), dict(n=2, d0=0, d1=1, d2=0, d3=0, split=2, reads=1)]),
-      Obligation('c18_serializer', c18_serializer, [Cube(f's{s}', [], dict(shape=s)) for s in range(4)], timeout=120,
+      Obligation('c18_serializer', c18_serializer, [Cube(f's{s}', [], dict(shape=s)) for s in range(8)], timeout=120,
                  enumerated=True, smoke=dict(shape=0, lv=1)),
       Obligation('c18_call_expr', c18_call_expr,
-                 [Cube(f'n{nm}_a{na}', [], dict(dict(name=nm, nargs=na), **({'k0': (nm * 5 + na * 3) % 16} if tier == 'quick' else {})),
-                       est=16 * 16 * 16 * 2) for nm in range(4) for na in range(3)], timeout=t, enumerated=True,
-                 smoke=dict(name=1, a0=4, a1=11, k0=6, nargs=2, nkw=1)),
+                 [Cube(f'n{nm}_a{na}', [], dict(dict(name=nm, nargs=na), **({'k0': (nm * 5 + na * 3) % 18} if tier == 'quick' else {})),
+                       est=18 * 18 * 18 * 2) for nm in range(4) for na in range(3)], timeout=t, enumerated=True,
+                 smoke=dict(name=1, a0=4, a1=11, k0=6, nargs=2, nkw=1), extra_smokes=[dict(name=0, a0=16, a1=0, k0=17, nargs=2, nkw=1)]),
   ]
